@@ -97,19 +97,47 @@ def gen_spec(rnd, wild=False):
             cp[1]["vals"][0] = cp[0]["vals"][0]
     # bounds on free real parameters (start value inside), sometimes on a fixed one (registered, never used)
     tied_followers = {t["names"][1] for t in spec["ties"] if "names" in t and not t.get("cplx")}
+    spec["centre"] = {}
     for v in reals:
         if v["name"] in tied_followers or v["name"] in spec["fix"]:
             continue
         r = rnd.random()
         x = v["value"]
-        if r < 0.3:
-            spec["bounds"][v["name"]] = [round(x - rnd.uniform(0.05, 0.6), 3), round(x + rnd.uniform(0.05, 0.6), 3)]
-        elif r < 0.45:
-            spec["bounds"][v["name"]] = [round(x - rnd.uniform(0.05, 0.6), 3), None]
-        elif r < 0.6:
-            spec["bounds"][v["name"]] = [None, round(x + rnd.uniform(0.05, 0.6), 3)]
-        elif r < 0.65:
-            spec["bounds"][v["name"]] = [None, None]
+        name = v["name"]
+        num = (lambda t: int(t)) if rnd.random() < 0.4 else (lambda t: float(t))  # limits written as ints or floats
+        far = rnd.uniform(0.8, 1.6)  # how far beyond a limit the optimum of the synthetic NLL is put
+        if r < 0.14:      # two-sided around the start value, optimum above / below the range
+            lo, hi = round(x - rnd.uniform(0.05, 0.6), 3), round(x + rnd.uniform(0.05, 0.6), 3)
+            spec["bounds"][name] = [lo, hi]
+            spec["centre"][name] = round(hi + far, 3) if rnd.random() < 0.5 else round(lo - far, 3)
+        elif r < 0.26:    # two-sided, containing 0, integer or float limits
+            lo, hi = rnd.choice([(-1, 2), (-2, 3), (-1.0, 2.0), (-0.5, 1.9)])
+            spec["bounds"][name] = [lo, hi]
+            spec["centre"][name] = round(hi + far, 3) if rnd.random() < 0.5 else round(lo - far, 3)
+        elif r < 0.40:    # lower limit exactly 0, optimum at negative values
+            spec["bounds"][name] = [num(0), None]
+            spec["centre"][name] = round(-far, 3)
+        elif r < 0.52:    # upper limit exactly 0 (start value moved below it), optimum at positive values
+            v["value"] = x = round(-x, 3)
+            spec["bounds"][name] = [None, num(0)]
+            spec["centre"][name] = round(far, 3)
+        elif r < 0.60:    # lower limit at a negative / positive value
+            lo = rnd.choice([num(-1), round(x - rnd.uniform(0.05, 0.6), 3)])
+            spec["bounds"][name] = [lo, None]
+            spec["centre"][name] = round(lo - far, 3)
+        elif r < 0.68:    # upper limit at a positive value
+            hi = rnd.choice([num(2), round(x + rnd.uniform(0.05, 0.6), 3)])
+            spec["bounds"][name] = [None, hi]
+            spec["centre"][name] = round(hi + far, 3)
+        elif r < 0.76:    # fully open entry
+            spec["bounds"][name] = [None, None]
+    # a tie partner created with the head's value keeps it (values may have been moved above)
+    for t in spec["ties"]:
+        if "names" in t and not t.get("cplx"):
+            hv = [w["value"] for w in reals if w["name"] == t["names"][0]][0]
+            for w in reals:
+                if w["name"] == t["names"][1]:
+                    w["value"] = hv
     if not spec["bounds"]:
         cand = [v for v in reals if v["name"] not in tied_followers and v["name"] not in spec["fix"]] or reals
         x = cand[0]["value"]
@@ -203,6 +231,8 @@ class Script:
         self.big = big              # a point with sum|x| > 1e7: the callback raises LargeNumberError
         self.seen_limits = None
         self.n_fun = 0
+        self.vm = None
+        self.bnd_during = None      # list(vm.bnd_dic) when the minimiser is entered
 
 
 @contextlib.contextmanager
@@ -214,6 +244,8 @@ def scripted(script):
     import tf_pwa.fit as F
 
     def fake_minimize(fun, x0, method=None, jac=None, hess=None, hessp=None, bounds=None, callback=None, options=None, **kw):
+        if script.vm is not None:
+            script.bnd_during = list(script.vm.bnd_dic)
         n = len(x0)
         pts = list(script.evals) + ([script.big] if script.big is not None else [])
         for pt in pts:
@@ -243,6 +275,8 @@ def scripted(script):
             self.fval = script.fval
             self.valid = script.success
             script.seen_limits = self.limits
+            if script.vm is not None:
+                script.bnd_during = list(script.vm.bnd_dic)
 
         def migrad(self, *a, **k):
             for pt in script.evals:
@@ -366,6 +400,12 @@ def gen_script(rnd, spec, method, ntr):
     return Script(evals, x, round(rnd.uniform(-50, 50), 6), rnd.random() < 0.7, has_h, big)
 
 
+def eff_bnd(keys, spec):
+    """registered names whose declared bound has at least one limit (an entry (None, None) is the identity: whether it is
+    registered is not observable in any value)"""
+    return [k for k in keys if k in spec["bounds"] and not (spec["bounds"][k][0] is None and spec["bounds"][k][1] is None)]
+
+
 def correspond(ctx, res):
     import c08_synth as S
     fix = probe_fix()
@@ -386,7 +426,7 @@ def correspond(ctx, res):
             method = rnd.choice([m for m in names if METHODS[m] == cls])
         cls = METHODS[method]
         vm = S.build_vm(spec)
-        fcn = S.SynthFCN(vm, spec["nll_seed"], spec["gauss"])
+        fcn = S.SynthFCN(vm, spec["nll_seed"], spec["gauss"], centre=spec.get("centre"))
         ntr = len(vm.trainable_vars)
         sc = gen_script(rnd, spec, method, ntr)
         stdc = rnd.random() < 0.85
@@ -395,6 +435,7 @@ def correspond(ctx, res):
         kw = {"standard_complex": stdc}
         if jac is not True:
             kw["jac"] = jac
+        sc.vm = vm
         with scripted(sc):
             kind, r = run_fit(fcn, method, S.bounds_of(spec), **kw)
         after = dump_vm(vm)
@@ -430,10 +471,15 @@ def correspond(ctx, res):
         if line == "bad-op":
             why = "model could not parse the case"
         else:
-            d0, d1, oc = line.split("#")
+            d0, dm, d1, oc = line.split("#")
             why = compare_dump(before, parse_dump(d0))
             if why:
                 why = "state before the fit: " + why
+            elif sc.bnd_during is not None and eff_bnd(sc.bnd_during, spec) != eff_bnd(parse_dump(dm)["bnd"], spec):
+                why = "names with a bound transform in force while the minimiser runs (vm.bnd_dic keys, fully open entries aside): impl %r model %r" % (
+                    eff_bnd(sc.bnd_during, spec), eff_bnd(parse_dump(dm)["bnd"], spec))
+            elif METHODS[method] == "minuit" and ctx.fix["minuitBnd"] and sorted(sc.seen_limits or {}) != sorted(t for t in before["trainable"] if t in spec["bounds"]):
+                why = "limits handed to Minuit: impl %r, declared for free names %r" % (sorted(sc.seen_limits or {}), sorted(t for t in before["trainable"] if t in spec["bounds"]))
             else:
                 why = compare_dump(after, parse_dump(d1))
                 if why:
@@ -603,6 +649,12 @@ def check_fit(spec, vm, fcn, method, opts, before, start_nll, kind, r, leftover)
                 fails.append(("standard_complex:bounded-part-out-of-bounds", "%s = %r outside (%r, %r) after the fit (polar standardisation ignores the removed bounds)" % (n, v, lo, hi)))
             else:
                 fails.append(("%s:out-of-bounds" % site, "%s = %r outside its bounds (%r, %r)" % (n, v, lo, hi)))
+    # 6b. every declared limit of a free parameter is in force while the transforming branches minimise
+    if METHODS.get(method) in ("quasi", "newton") and fcn.bnd_seen is not None:
+        lost = [n for n, (lo, hi) in S.bounds_of(spec).items() if (lo is not None or hi is not None) and n in vm.trainable_vars and n not in fcn.bnd_seen]
+        if lost:
+            fails.append(("%s:declared-bound-not-applied" % site, "bounds_dict declares %s in %r but while the minimiser ran vm.bnd_dic held transforms only for %r" % (
+                lost[0], tuple(S.bounds_of(spec)[lost[0]]), fcn.bnd_seen)))
     # 7. bounds bookkeeping
     if vm.bnd_dic and not leftover:
         fails.append(("%s:bnd_dic-left" % site, "vm.bnd_dic still holds %r after the fit returned (vm.get(%r) = %r, stored value %r)" % (
@@ -616,7 +668,7 @@ def check_fit(spec, vm, fcn, method, opts, before, start_nll, kind, r, leftover)
             import yaml
             loaded = yaml.safe_load(f)["value"]
         vm2 = S.build_vm(spec)
-        fcn2 = S.SynthFCN(vm2, spec["nll_seed"], spec["gauss"], linear=bool(opts.get("expect_large")))
+        fcn2 = S.SynthFCN(vm2, spec["nll_seed"], spec["gauss"], linear=bool(opts.get("expect_large")), centre=spec.get("centre"))
         for c in vm.complex_vars:  # the coordinate flags of the fresh model as the fitted one has them (a fit never switches them)
             if vm2.complex_vars[c] != vm.complex_vars[c]:
                 fails.append(("%s:save-load" % site, "complex_vars[%r] differs between the fitted and a fresh model" % c))
@@ -639,7 +691,7 @@ def run_sequence(spec, seq, linear=False):
     """build the scenario, run the fits of `seq` one after the other on the real code, check after each; -> failures"""
     import c08_synth as S
     vm = S.build_vm(spec)
-    fcn = S.SynthFCN(vm, spec["nll_seed"], spec["gauss"], linear=linear)
+    fcn = S.SynthFCN(vm, spec["nll_seed"], spec["gauss"], linear=linear, centre=spec.get("centre"))
     bounds = S.bounds_of(spec)
     fails, log = [], []
     for step in seq:
@@ -654,6 +706,7 @@ def run_sequence(spec, seq, linear=False):
         opts["start_feasible"] = all(
             (lo is None or before[n] >= lo) and (hi is None or before[n] <= hi)
             for n, (lo, hi) in bounds.items() if n in before and n in vm.trainable_vars)
+        fcn.bnd_seen = None
         kind, r = run_fit(fcn, method, bounds, **kw)
         if leftover:
             # bounds left registered by the previous fit (reported there): this fit starts from a polluted bookkeeping
@@ -695,10 +748,11 @@ def run_scripted(spec, method, script_d, stdc=True):
     site = site_of(method)
     cls = METHODS[method]
     vm = S.build_vm(spec)
-    fcn = S.SynthFCN(vm, spec["nll_seed"], spec["gauss"])
+    fcn = S.SynthFCN(vm, spec["nll_seed"], spec["gauss"], centre=spec.get("centre"))
     bounds = S.bounds_of(spec)
     before = {n: float(v.numpy()) for n, v in vm.variables.items()}
     sc = Script(script_d["evals"], script_d["x"], script_d["fval"], script_d["success"], script_d["has_hess_inv"])
+    sc.vm = vm
     with scripted(sc):
         kind, r = run_fit(fcn, method, bounds, standard_complex=stdc)
     fails = []
@@ -754,6 +808,17 @@ def scripted_cases(ctx):
     return out
 
 
+# limits at exactly 0 (int and float), a fully open entry, an integer two-sided range containing 0 — every optimum outside
+ZERO_LIMIT_SPEC = {
+    "polar": True, "fix": [], "gauss": {}, "nll_seed": 80, "ties": [],
+    "vars": [{"k": "real", "name": "p0", "value": 0.6, "free": True}, {"k": "real", "name": "p1", "value": -0.7, "free": True},
+             {"k": "real", "name": "p2", "value": 0.4, "free": True}, {"k": "real", "name": "p3", "value": 0.5, "free": True},
+             {"k": "real", "name": "p4", "value": 1.1, "free": True}, {"k": "cplx", "name": "z0", "polar": True, "free": True, "vals": [1.0, 0.4]}],
+    "bounds": {"p0": [0, None], "p1": [None, 0.0], "p2": [None, None], "p3": [-1, 2], "p4": [0.0, None]},
+    "centre": {"p0": -1.2, "p1": 0.9, "p2": 0.3, "p3": 3.1, "p4": -0.8},
+}
+
+
 def _one(method, **opts):
     return [{"method": method, "opts": opts}]
 
@@ -801,6 +866,8 @@ def synth_cases(ctx):
             cases.append(("jac-false", spec, [{"method": "BFGS", "opts": {"jac": False, "maxiter": 30}}], False))
             cases.append(("check-grad", spec, [{"method": "BFGS", "opts": {"check_grad": True, "maxiter": 2}}], False))
             cases.append(("large", spec, [{"method": "BFGS", "opts": {}}], True))
+    for m in (["BFGS", "Newton-CG", "trust-exact", "iminuit", "L-BFGS-B"] + ([] if ctx.quick else ["CG", "Nelder-Mead", "trust-krylov-p", "test"])):
+        cases.append(("zero-limit", ZERO_LIMIT_SPEC, _one(m, **({"maxiter": 150} if m == "Nelder-Mead" else {})), False))
     for key, (spec, seq, linear) in KNOWN_INPUTS.items():  # the deterministic corpus of the listed findings
         cases.append(("corpus", spec, seq, linear))
     if not ctx.quick:
@@ -819,10 +886,10 @@ REAL_CFG = {
     "particle": {
         "$top": {"A": {"J": 0, "P": -1, "mass": 4.6}},
         "$finals": {"B": {"J": 0, "P": -1, "mass": 2.00698}, "C": {"J": 0, "P": -1, "mass": 2.01028}, "D": {"J": 0, "P": -1, "mass": 0.13957}},
-        "R_BC": {"J": 1, "Par": -1, "m0": 4.16, "g0": 0.1, "float": ["m", "g"], "m_min": 4.1, "m_max": 4.25, "g_min": 0.02},
+        "R_BC": {"J": 1, "Par": -1, "m0": 4.16, "g0": 0.1, "float": ["m", "g"], "m_min": 4.1, "m_max": 4.25, "g_min": 0},
         "R_BD": {"J": 0, "Par": 1, "m0": 2.43, "g0": 0.3, "float": ["m"], "gauss_constr": {"m": 0.02}},
     },
-    "constrains": {"decay": {"fix_chain_idx": 0, "fix_chain_val": 1.0}},
+    "constrains": {"decay": {"fix_chain_idx": 0, "fix_chain_val": 1.0}, "var_range": {"A->R_BD.CR_BD->B.D_total_0r": [0, None]}},
 }
 
 
@@ -835,11 +902,12 @@ def eval_budget(n):
     from tf_pwa.model import FCN
     names = ["get_nll_grad", "get_nll_grad_hessian", "get_grad_hessp", "get_nll"]
     orig = {k: getattr(FCN, k) for k in names}
-    count = [0]
+    count = [0, set()]
 
     def wrap(f):
         def g(self, *a, **k):
             count[0] += 1
+            count[1].update(self.vm.bnd_dic)
             if count[0] > n:
                 raise Budget()
             return f(self, *a, **k)
@@ -897,7 +965,7 @@ def real_sequence(rig, seq, res_log):
         start = rig.nll(cfg)
         leftover = bool(vm.bnd_dic)
         try:
-            with quiet(), eval_budget(int(opts.get("budget", 40))):
+            with quiet(), eval_budget(int(opts.get("budget", 40))) as counter:
                 r = cfg.fit([rig.data], [rig.phsp], method=method, **{k: v for k, v in opts.items() if k in ("maxiter",)})
         except Budget:
             res_log.append({"method": method, "opts": opts, "outcome": "evaluation budget exhausted (skipped)"})
@@ -934,6 +1002,11 @@ def real_sequence(rig, seq, res_log):
             v = state[n]
             if (lo is not None and v < lo - ulp_slack(lo)) or (hi is not None and v > hi + ulp_slack(hi)):
                 fails.append(("%s:out-of-bounds" % site, "real model: %s = %r outside (%r, %r)" % (n, v, lo, hi)))
+        if METHODS.get(method) in ("quasi", "newton"):
+            lost = [n for n, (lo, hi) in cfg.bound_dic.items() if (lo is not None or hi is not None) and n in vm.trainable_vars and n not in counter[1]]
+            if lost:
+                fails.append(("%s:declared-bound-not-applied" % site, "real model: the configuration declares %s in %r but no transform for it was registered in vm.bnd_dic during the fit (seen: %r)" % (
+                    lost[0], tuple(cfg.bound_dic[lost[0]]), sorted(counter[1]))))
         if vm.bnd_dic and not leftover:
             fails.append(("%s:bnd_dic-left" % site, "real model: vm.bnd_dic still holds %r after ConfigLoader.fit returned" % list(vm.bnd_dic)))
         # save_as / save_params -> fresh ConfigLoader -> set_params(file)
